@@ -4,6 +4,7 @@ import (
 	"bytes"
 	"context"
 	"fmt"
+	"strings"
 	"sync"
 
 	protocol "github.com/hujm2023/go-sms-protocol"
@@ -405,6 +406,12 @@ func judgeC06(c *fw.Case, o *splitObs) {
 		c.Failf("split-error/"+o.entry+"/"+expKind.String(), "split failed: %v\n%s", o.err, o.ctx())
 		return
 	}
+	if o.repNum != expNum && strings.HasPrefix(o.entry, "Build-") && total > single && greedyParts(units, per) > 255 {
+		// the batch encoder's contract (C09): a candidate that needs more than 255 parts cannot carry the message, and
+		// UCS-2 is the fallback when no candidate can. Whatever it reports is judged as it stands below.
+		c.Cover("c06/" + o.entry + "/requested-coding-needs-more-than-255-parts")
+		expNum = o.repNum
+	}
 	if o.repNum != expNum {
 		kind := "reported-coding"
 		if _, sup := o.supportedReq(); !sup {
@@ -687,13 +694,17 @@ func boundaryText(r *fw.Rng, kind codingKind) (string, string) {
 	case kLatin1:
 		filler, multi = []rune("abcéèñü "), nil
 	case kUCS2:
-		filler, multi = []rune("a中é文\ufffd"), []rune{0x1f600, 0x20000, 0x10ffff}
+		// one character from every range of high surrogates: D800.. (planes 1-2), DB40 (plane 14), DB80.. and DBFF (the
+		// private-use planes 15/16)
+		filler, multi = []rune("a中é文\ufffd"), []rune{0x1f600, 0x20000, 0x10ffff, 0xe0100, 0xf0000, 0xffffd, 0x100000, 0x2f800}
 		if r.Chance(1, 3) {
 			// variation selector, zero-width joiner, combining accent: emoji sequences put them right behind wide characters
 			filler = []rune("a中\ufe0f\u200d\u0301文")
 		}
 	case kGB:
-		filler, multi = []rune("ab1 "), []rune{'中', '文', 0x20000, 0x1f600, 0x00e9, 0x3000}
+		// two-octet characters from both ends of the lead-byte range (0x81.. and 0xFE: U+4E02 is 81 40, U+4DAE is FE 9F,
+		// U+3447 FE 56, U+2E81 FE 50), four-octet ones
+		filler, multi = []rune("ab1 "), []rune{'中', '文', 0x20000, 0x1f600, 0x00e9, 0x3000, 0x4e02, 0x4dae, 0x3447, 0x2e81, 0xfffd, 0x10ffff}
 	default:
 		filler, multi = []rune("abc123 @"), []rune("[]{}^~|\\€\f")
 		switch r.Intn(3) {
@@ -733,6 +744,24 @@ func boundaryText(r *fw.Rng, kind codingKind) (string, string) {
 	}
 	if target < 0 {
 		target = 0
+	}
+	if len(multi) > 0 && r.Chance(1, 150) {
+		// nothing but multi-unit characters, 100 to 260 parts: every cut is moved, parts fill up less than the blind
+		// count says, headers must still tell the true number (or the message is refused beyond 255)
+		m := multi[r.Intn(len(multi))]
+		u := unitOf(m)
+		if u > 1 {
+			perPart := per / u
+			n := perPart*r.Pick(100, 134, 135, 200, 254, 255, 256, 260) + r.Range(-2, 2)
+			rs := make([]rune, n)
+			for i := range rs {
+				rs[i] = m
+			}
+			if r.Bool() {
+				rs[r.Intn(len(rs))] = 'a'
+			}
+			return string(rs), fmt.Sprintf("%s/dense-multi-unit", kind)
+		}
 	}
 	// positions (in units) at which a multi-unit character must START
 	starts := map[int]rune{}
